@@ -1066,44 +1066,72 @@ Qed.
 
 (* ---- IntermediateRoot ------------------------------------------------------ *)
 
-Lemma invalid_empty a v l : val_ok a (v, l) -> is_invalid v = true -> truncated_invalid v = false -> l = [].
+Lemma invalid_empty a v l : val_ok a (v, l) -> is_invalid v = true -> l = [].
 Proof.
-  intros Hok Hi Ht. unfold truncated_invalid in Ht. rewrite Hi in Ht. cbn in Ht.
-  assert (v_token v = 0) by lia.
+  intros Hok Hi. unfold is_invalid in Hi.
   destruct Hok as (_&_&_&H4&_&H6&_&[_ H8]&_). cbn [fst snd] in *.
   apply dsum_pos_nil; [intros e He; apply H8, He|].
   pose proof (dsum_token_nonneg _ H8). lia.
 Qed.
 
-Lemma good_root_vals dirty : forall c,
-  Good c -> (forall a x, aget (xs c) a = Some x -> truncated_invalid (fst x) = false) ->
-  Good (c_root_vals c dirty).
+(* removing a validator without delegations *)
+Lemma good_delete c a v : Good c -> aget (xs c) a = Some (v, []) ->
+  Good (c_stat (c_index (c_xs c (adel (xs c) a)) (srem a (xindex c))) (a_decr (xstat c) v)).
 Proof.
-  induction dirty as [|a r IH]; intros c [V L] Hp; cbn [c_root_vals]; [split; assumption|].
-  destruct (aget (xs c) a) as [[v l]|] eqn:Hx; [|apply IH; [split; assumption|assumption]].
-  destruct (is_invalid v) eqn:Hi.
-  - pose proof (invalid_empty _ _ _ (g_vals _ V _ _ Hx) Hi (Hp _ _ Hx)) as ->.
-    apply IH.
-    + split.
-      * apply (goodV_delete c a (v, []) V Hx).
-      * unfold c_stat, c_index, c_xs. constructor; cbn.
-        -- apply L.
-        -- apply L.
-        -- intros d bal lst a' Hd. rewrite (g_link _ L _ _ _ a' Hd).
-           destruct (Z.eq_dec a' a) as [->|Hne].
-           ++ rewrite aget_adel_same by apply V. rewrite Hx.
-              split; intros (x & Hx' & Hg); [inversion Hx'; subst; cbn in Hg; congruence|discriminate].
-           ++ rewrite aget_adel_other by assumption. reflexivity.
-        -- intros d bal lst Hd. rewrite (lsum_adel _ _ _ _ Hx). unfold tokd at 2; cbn.
-           rewrite <- (g_bal _ L _ _ _ Hd). lia.
-        -- intros a' x e. destruct (Z.eq_dec a' a) as [->|Hne].
-           ++ rewrite aget_adel_same by apply V. discriminate.
-           ++ rewrite aget_adel_other by assumption. apply L.
-    + cbn. intros a' x. destruct (Z.eq_dec a' a) as [->|Hne].
+  intros [V L] Hx. split.
+  - apply (goodV_delete c a (v, []) V Hx).
+  - unfold c_stat, c_index, c_xs. constructor; cbn.
+    + apply L.
+    + apply L.
+    + intros d bal lst a' Hd. rewrite (g_link _ L _ _ _ a' Hd).
+      destruct (Z.eq_dec a' a) as [->|Hne].
+      * rewrite aget_adel_same by apply V. rewrite Hx.
+        split; intros (x & Hx' & Hg); [inversion Hx'; subst; cbn in Hg; congruence|discriminate].
+      * rewrite aget_adel_other by assumption. reflexivity.
+    + intros d bal lst Hd. rewrite (lsum_adel _ _ _ _ Hx). unfold tokd at 2; cbn.
+      rewrite <- (g_bal _ L _ _ _ Hd). lia.
+    + intros a' x e. destruct (Z.eq_dec a' a) as [->|Hne].
       * rewrite aget_adel_same by apply V. discriminate.
-      * rewrite aget_adel_other by assumption. apply Hp.
-  - apply IH; [|exact Hp].
-    rewrite (index_present _ _ _ V Hx). destruct c; split; assumption.
+      * rewrite aget_adel_other by assumption. apply L.
+Qed.
+
+Lemma good_root_vals dirty : forall c, Good c -> Good (c_root_vals c dirty).
+Proof.
+  induction dirty as [|a r IH]; intros c [V L]; cbn [c_root_vals]; [split; assumption|].
+  destruct (aget (xs c) a) as [[v l]|] eqn:Hx; [|apply IH; split; assumption].
+  destruct (is_invalid v) eqn:Hi.
+  - pose proof (invalid_empty _ _ _ (g_vals _ V _ _ Hx) Hi) as ->.
+    apply IH. apply good_delete; [split; assumption|exact Hx].
+  - apply IH. rewrite (index_present _ _ _ V Hx). destruct c; split; assumption.
+Qed.
+
+Lemma sset_adel_back {A} (m : list (Z * A)) k y : ssorted m -> aget m k = Some y -> sset (adel m k) k y = m.
+Proof.
+  induction m as [|[k2 z] r IH]; cbn; [discriminate|].
+  intros [Hlt Hs]. destruct (Z.eqb_spec k2 k) as [->|Hne].
+  - intros H; inversion H; subst. destruct r as [|[k3 z3] r']; cbn; [reflexivity|].
+    assert (k < k3) by (eapply Hlt; cbn; eauto). destruct (Z.ltb_spec k k3); [reflexivity|lia].
+  - intros Hg. cbn. destruct (Z.ltb_spec k k2).
+    + apply aget_In in Hg. specialize (Hlt _ _ Hg). lia.
+    + destruct (Z.eqb_spec k k2); [lia|]. f_equal; auto.
+Qed.
+
+Lemma remove_sound c a :
+  Good c -> (match aget (xs c) a with Some (_, []) => true | Some _ => false | None => true end) = true ->
+  op_sound c (c_remove c a).
+Proof.
+  intros G Hp. unfold c_remove, op_sound.
+  destruct (aget (xs c) a) as [[v l]|] eqn:Hx; [|cbn; split; [exact G|reflexivity]].
+  destruct l as [|e l]; [|discriminate]. cbn [fst snd]. split; [apply good_delete; assumption|].
+  destruct G as [V L]. pose proof (g_vals _ V _ _ Hx) as Hok.
+  pose proof (g_stat _ V) as Hst. pose proof (g_index _ V) as Hix. pose proof (g_sorted _ V) as Hs.
+  pose proof (goodV_nonneg_rest _ a V) as Hnn.
+  unfold undo_all. cbn [fold_left]. unfold c_vundo1, c_set_validator, c_stat, c_index, c_xs.
+  destruct c as [m idx st ac]; cbn in *. f_equal.
+  - apply sset_adel_back; assumption.
+  - rewrite Hix. apply sins_srem_present; [apply ssorted_keys, Hs|]. apply aget_keys. congruence.
+  - rewrite Hst, (tot_adel _ _ _ Hx). cbn [fst]. unfold a_decr. rewrite decr_wrap by (try apply Hok; assumption).
+    cbn [ostat]. unfold a_incr. rewrite incr_wrap by apply Hok. reflexivity.
 Qed.
 
 (* ---- undo: account part and validator part are independent ----------------- *)
@@ -1132,11 +1160,12 @@ Proof.
   destruct f; cbn.
   - destruct (aget (xs c) a) as [[? ?]|]; reflexivity.
   - reflexivity.
+  - reflexivity.
 Qed.
 
 Lemma c_vundo1_xaccts c f : xaccts (c_vundo1 c f) = xaccts c.
 Proof.
-  destruct f; cbn; [|reflexivity]. destruct (aget (xs c) a) as [[? ?]|]; reflexivity.
+  destruct f; cbn; [|reflexivity|reflexivity]. destruct (aget (xs c) a) as [[? ?]|]; reflexivity.
 Qed.
 
 Lemma undo1_comm c e f : c_vundo1 (c_aundo1 c e) f = c_aundo1 (c_vundo1 c f) e.
@@ -1290,20 +1319,13 @@ Proof.
     rewrite (undo_push c' ja jv (core s)) by assumption. apply (H _ _ _ Hin).
 Qed.
 
-Lemma pre_root_vals s : forallb (fun p => negb (truncated_invalid (fst (snd p)))) (xs (core s)) = true ->
-  forall a x, aget (xs (core s)) a = Some x -> truncated_invalid (fst x) = false.
-Proof.
-  intros H a x Hx. apply aget_In in Hx. rewrite forallb_forall in H. specialize (H _ Hx). cbn in H.
-  destruct (truncated_invalid (fst x)); [discriminate|reflexivity].
-Qed.
-
 Theorem J_step s o : J s -> a_pre s o = true -> J (a_step s o).
 Proof.
   intros HJ Hp. destruct o; cbn [a_step a_pre] in *.
   - apply J_push; [assumption|]. apply fund_sound, HJ.
   - apply J_push; [assumption|]. apply create_sound; [apply HJ|lia..].
   - apply J_push; [assumption|]. apply update_sound; [apply HJ|assumption].
-  - assumption.
+  - apply J_push; [assumption|]. apply remove_sound; [apply HJ|assumption].
   - apply J_push; [assumption|]. apply delegate_sound; [apply HJ|assumption].
   - (* snapshot *)
     destruct HJ as (G & M & H). unfold a_snapshot. split; [exact G|]. cbn [core xaj xvj xrevs]. split.
@@ -1334,11 +1356,11 @@ Proof.
   - (* root *)
     destruct HJ as (G & M & H). unfold a_root, a_finalise. cbn [core xdirty].
     split; [|split; [exact I|intros ? ? ? []]]. cbn [core].
-    apply good_root_vals; [exact G|]. apply pre_root_vals, Hp.
+    apply good_root_vals. exact G.
   - (* commit + reload *)
     destruct HJ as (G & M & H). unfold a_setnext, a_root, a_finalise. cbn [core xdirty xaj xvj xrevs].
     split; [|split; [exact I|intros ? ? ? []]].
-    apply good_root_vals; [exact G|]. apply pre_root_vals, Hp.
+    apply good_root_vals. exact G.
   - (* copy *)
     destruct HJ as (G & M & H). unfold a_setnext, a_finalise. cbn [core xdirty xaj xvj xrevs].
     split; [exact G|]. split; [exact I|intros ? ? ? []].
